@@ -303,12 +303,39 @@ def r7_registered(cx):
             from_list = fld is not None and fld[0] == "param" and fld[1] == 1 and tuple(fld[3])[-1:] == ("timeout",)
             if from_list:
                 ok_src.append(c)
+        site_fn, site_b = view, (ok_src[0].b if ok_src else None)
+        if not ok_src:
+            # `self.timeout.iter().for_each(|s| task.add_hook_timeout(.., s))`: the call sits in a closure of init
+            for gq, gcl in m.fns.items():
+                if not gq.startswith(f.q + "::{closure"):
+                    continue
+                for c in gcl.calls():
+                    if not c.q.endswith("Task::add_hook_timeout") or len(c.args) < 3 or pa.root(gcl, c.args[2])[:2] != ("param", 2):
+                        continue
+                    if [g_ for g_ in conditions_of(m, gcl, c.b, mode="value") if not g_.neutral]:
+                        continue
+                    for fe in view.calls():
+                        if not re.search(r"Iterator(>)?::for_each(::<.*>)?$", fe.q) or len(fe.args) < 2:
+                            continue
+                        k = pa.root(view, fe.args[1])
+                        if not (k[0] == "closure" and k[1] == gq):
+                            continue
+                        r = pa.root(view, fe.args[0])
+                        for _ in range(5):
+                            if r[0] == "call" and re.search(r"::(iter|into_iter|deref|as_slice)$", r[1]) and not r[3]:
+                                cc = Call(view, r[2])
+                                r = pa.root(view, cc.args[0]) if cc.args else ("?",)
+                                continue
+                            break
+                        if r[0] == "param" and r[1] == 1 and tuple(r[3])[-1:] == ("timeout",):
+                            ok_src.append(fe)
+                            site_b = fe.b
         n += 1
         if not ok_src:
             cx.ob("C19.R7", "%s:registered" % f.short, False, "`%s` hands the elements of `self.timeout` to add_hook_timeout - no such call found: the rules declared on the node never reach the tick" % f.short, f.loc())
             continue
         c = ok_src[0]
-        conds = sorted({gdesc(m, g) for g in conditions_of(m, view, c.b, mode="value") if not g.neutral})
+        conds = sorted({gdesc(m, g) for g in conditions_of(m, view, site_b, mode="value") if not g.neutral})
         extra = [d for d in conds if not any(re.search(p_, d) for p_ in allowed)]
         cx.ob("C19.R7", "%s:registered" % f.short, not extra,
               "`%s` registers every element of `self.timeout` whatever else is true of the node (conditions: %s)%s" % (f.short, conds, "" if not extra else " - the registration also depends on %s" % extra), c.loc)
